@@ -2,7 +2,7 @@
 from common import SYNC_RW, RAFT_ENV  # noqa: F401
 
 CHECK = {'level': 'model_checking',
- 'rule': 'every log up to the length bound over {6 plain writes, 5 transaction templates x every start index}; for '
+ 'rule': 'every log up to the length bound over {7 plain writes, 5 transaction templates x every start index, a chunked write or chunked transaction (2 chunks via the real ChunkingApply, other entries may land between the chunks, at most one in flight)}; every batch goes through the chunking wrapper exactly as raft feeds it; after a restart or snapshot install delivery resumes at the persisted index; for '
          'each log every batching, every restart position and every snapshot-install position (x every already-applied '
          'prefix) is executed on real FSMs and compared with the serial value-based reference; non-trivial = distinct '
          '(reference verdict vector, final state, length)',
@@ -21,10 +21,10 @@ CHECK = {'level': 'model_checking',
 META = {'engines': 'E0 E3',
  'technique': 'explicit-state enumeration of logs x batchings x restart/snapshot positions on real FSM replicas vs '
               'serial value-based reference',
- 'text': 'Exhaustive within the bound: all logs of length <=3 (quick) / <=4 (thorough) over plain writes and '
+ 'text': 'Exhaustive within the bound: all logs of length <=3 (quick) / <=4 (thorough) over plain writes, chunked entries and '
          'transactions with every start index, each applied under every batch partition, every restart position and '
          'every snapshot-install position on real bolt-backed FSMs; verdicts and final bytes must equal a serial '
          'reference. The property is a determinism claim over (log x batching x crash point), a finite product that '
          'can be enumerated completely for small logs.',
  'note': 'Trusted: reference model, honest-leader log construction. Not covered: hashicorp/raft internals, logs longer '
-         'than the bound, chunked entries.'}
+         'than the bound, more than one chunked entry in flight, more than two chunks, term changes.'}
